@@ -89,11 +89,18 @@ class StallStrategy(RandomStrategy):
         self.files, self.durations = files, durations
         # stall positions are drawn uniformly over the eligible yield points of a run (est = how many the previous run had),
         # so that late points (the k-th tick) are as likely as the first lines of schedule_periodic
+        # two runs out of three only stall threads the library created (loop thread, timers, pool workers): the scenario's own
+        # threads (driver, K*) mostly execute set-up code
+        self.lib_only = rng.random() < 0.67
+        if isinstance(est, dict):
+            est = est["lib" if self.lib_only else "all"]
         self.targets = {rng.randrange(max(1, est)) for _ in range(rng.randint(1, max_stalls))}
         self.n = 0
 
     def stall(self, ctl: "Ctl", name: str, where: Any) -> float:
         if not isinstance(where, tuple) or where[0] not in self.files:
+            return 0.0
+        if self.lib_only and (name == "driver" or name.startswith("K")):
             return 0.0
         self.n += 1
         if (self.n - 1) in self.targets:
